@@ -145,8 +145,11 @@ type sqlToken struct {
 	text string
 }
 
+// isSQLSpace reports whether SQLite skips c as whitespace. A vertical tab is
+// only skipped by SQLite when it follows other whitespace (on its own it is an
+// illegal token), so treating it as whitespace everywhere errs on the safe side.
 func isSQLSpace(c byte) bool {
-	return c == ' ' || c == '\t' || c == '\n' || c == '\f' || c == '\r'
+	return c == ' ' || c == '\t' || c == '\n' || c == '\v' || c == '\f' || c == '\r'
 }
 
 func isSQLWordByte(c byte) bool {
